@@ -221,6 +221,45 @@ func runC20(t *testing.T, c CfgCase) *kit.Result {
 		}
 		withData := fs.Snapshot("n1")
 
+		// ---- the same through a relative path (the process's working directory
+		// stays what it is): created, written to, closed, reopened
+		if c.PSeed%4 == 0 {
+			rel := "relative/db"
+			kit.OnNode(fs, "cwd", "relative-path", func() {
+				e, err := engine.NewEngineFacade(rel)
+				if err != nil {
+					fail(&kit.Violation{Kind: "open-error", Signature: "open-error:relative-path", Detail: err.Error()})
+					return
+				}
+				if err := e.Put([]byte("rel-key"), []byte("rel-value")); err != nil {
+					res.Probe("relative_put_error")
+				}
+				first, _ := config.LoadConfigFromManifest(rel)
+				e.Close()
+				e, err = engine.NewEngineFacade(rel)
+				if err != nil {
+					fail(&kit.Violation{Kind: "open-error", Signature: "open-error:relative-path-reopen", Detail: err.Error()})
+					return
+				}
+				defer e.Close()
+				evals++
+				again, _ := config.LoadConfigFromManifest(rel)
+				if first != nil && again != nil {
+					if d := cfgEqual(first, again); d != "" {
+						fail(&kit.Violation{Kind: "config-changed", Signature: "config-changed-by-reopen:relative-path", Detail: d})
+						return
+					}
+				}
+				if v, err := e.Get([]byte("rel-key")); err != nil || string(v) != "rel-value" {
+					fail(&kit.Violation{Kind: "config-ignored", Signature: "relative-path-reopen-loses-data", Detail: fmt.Sprintf("a database created through the relative path %q and reopened through the same path reads rel-key as (%q, %v):\n%s", rel, v, err, fs.Snapshot("cwd").Describe())})
+				}
+			})
+			simrt.KillTagged("cwd", fs.Node("cwd").Gen)
+			if res.V != nil {
+				return
+			}
+		}
+
 		// ---- damaged manifest over existing data: opening must fail, never fall back to defaults
 		raw, _ := fs.ReadFileRaw(dir + "/MANIFEST")
 		raw = append([]byte(nil), raw...)
@@ -265,6 +304,17 @@ func runC20(t *testing.T, c CfgCase) *kit.Result {
 			content[p] = nv
 			res.Fault("byte_corruption", 1)
 			tryDamaged(img, fmt.Sprintf("corruption of manifest byte %d: %#02x -> %#02x", p, raw[p], nv), content)
+		}
+		// damage that lies entirely behind a complete object: the tail of an older,
+		// longer manifest, padding, a second object, garbage
+		for i, tail := range [][]byte{raw[len(raw)/2:], {0, 0, 0, 0}, []byte("{}"), []byte("\n{\"version\":1}"), {0xff, 0xfe, 'x'}, []byte("}")} {
+			if res.V != nil {
+				break
+			}
+			img := withData.Clone()
+			img.Append(dir+"/MANIFEST", tail)
+			res.Fault("trailing_bytes", 1)
+			tryDamaged(img, fmt.Sprintf("trailing-bytes variant %d: %d bytes behind the complete manifest", i, len(tail)), append(append([]byte(nil), raw...), tail...))
 		}
 		res.Evals = evals
 		res.Probes["io_points_of_creation"] += int64(len(snaps))
@@ -350,6 +400,6 @@ func TestC20(t *testing.T) {
 			return out
 		},
 		Strip: func(c CfgCase) any { d := c; d.Sched = kit.Sched{}; return d },
-		Rule:  "generated configurations (0-3 numeric fields set around their validity boundaries, occasionally an empty or relocated directory): an invalid one must be rejected by SaveManifest with the node's disk image byte-identical before and after (pure validation; plain input generation); a valid one must load back identical, then - simulation proper - the process is killed before and after every I/O point of the manifest's creation and the database reopened; a database that took writes is reopened 1-4 times and must keep configuration, manifest bytes and configured directories; finally the stored manifest is truncated at every byte offset and corrupted at 60 sampled bytes over the existing data: if the damaged content is unreadable or invalid, NewEngineFacade must fail. evaluations = images opened; non-trivial = every completed case",
+		Rule:  "generated configurations (0-3 numeric fields set around their validity boundaries, occasionally an empty or relocated directory): an invalid one must be rejected by SaveManifest with the node's disk image byte-identical before and after (pure validation; plain input generation); a valid one must load back identical, then - simulation proper - the process is killed before and after every I/O point of the manifest's creation and the database reopened; a database that took writes is reopened 1-4 times (in a quarter of the cases also one created and reopened through a relative path) and must keep configuration, manifest bytes and configured directories; finally the stored manifest is truncated at every byte offset corrupted at 60 sampled bytes and extended by 6 kinds of trailing bytes over the existing data: if the damaged content is unreadable or invalid, NewEngineFacade must fail. evaluations = images opened; non-trivial = every completed case",
 	})
 }
